@@ -9,7 +9,7 @@ from .. import cat, allsolvers
 from ..strat import uni
 
 META = dict(
-    technique='Hypothesis-generated (solver class out of ALL public ExactSolver subclasses found by walking the package, N, container type, permutation); contract predicates incl. CSV round trip',
+    technique='Hypothesis-generated (solver class out of ALL public ExactSolver subclasses found by walking the package, N, container type, permutation); contract predicates incl. CSV round trip; coverage-guided supplement: the same strategy and oracle driven by atheris/libFuzzer through Hypothesis fuzz_one_input (obligations *-atheris)',
     rule='cases = (class drawn uniformly from the 120 public ExactSolver subclasses enumerated with pkgutil at run time - a class without a recipe is reported, not skipped -, '
          'N in 1..12 (>= 2 where documented), points as list / tuple / ndarray / list of tuples, a random permutation); oracle = result is an ExactSolution of exactly N records '
          'in input order whose leading field(s) are the positions passed, field names unique and positions named per the standard table, list/tuple/array inputs give identical '
